@@ -25,6 +25,7 @@ var chaIncomparable = map[string]string{
 	"R-PUBLISH-BEFORE-CANCEL": "same goroutine-reachability notion as R-ATOMIC",
 	"R-MONITOR-CONFINED":      "which goroutine entries reach the monitor's tables; CHA adds every func-valued call",
 	"R-SHARED-WRITE":          "reachability from the process goroutines; on CHA the set-up code of a run looks reachable from them",
+	"R-SHARED-ELEMS":          "which functions run on process goroutines; on CHA the set-up code that fills the providers of the initial processes looks reachable from them",
 	"R-CLOSE-OWNER":           "which functions run on process goroutines; on CHA the service goroutines look reachable from them",
 }
 
